@@ -717,6 +717,17 @@ func stateProbeStreams(r *Rng) []*RecStream {
 		{Def: &DefOp{Local: 4, Arch: "le", Global: 55, Fields: [][3]int{{253, 4, 0x86}, {11, 4, 0x86}}}},
 		{Data: &DataOp{Local: 4, Bytes: le32(ts+10) + le32(ts+3610)}},
 	}})
+	// 2b. siblings of 2 whose local offsets differ by seconds only (3600 / 3630 / 7 / -3599):
+	// anything cached per "rounded" offset is handed to the wrong file
+	for _, off := range []int64{3600, 3630, 7, -3599} {
+		out = append(out, &RecStream{Header: hdr(), Ops: []Op{
+			{Def: &DefOp{Local: 2, Arch: "le", Global: 0, Fields: [][3]int{{0, 1, 0}}}},
+			{Data: &DataOp{Local: 2, Bytes: "20"}},
+			{Def: &DefOp{Local: 4, Arch: "le", Global: 55, Fields: [][3]int{{253, 4, 0x86}, {11, 4, 0x86}}}},
+			{Data: &DataOp{Local: 4, Bytes: le32(ts+10) + le32(uint32(int64(ts+10)+off))}},
+			{Data: &DataOp{Local: 4, Bytes: le32(ts+20) + le32(uint32(int64(ts+20)+off))}},
+		}})
+	}
 	// 3. activity: activity.local_timestamp only
 	out = append(out, &RecStream{Header: hdr(), Ops: []Op{
 		{Def: &DefOp{Local: 0, Arch: "be", Global: 0, Fields: [][3]int{{0, 1, 0}}}},
@@ -730,7 +741,7 @@ func stateProbeStreams(r *Rng) []*RecStream {
 		{Data: &DataOp{Local: 1, Bytes: "04"}},
 		{Def: &DefOp{Local: 2, Arch: "le", Global: 20, Fields: [][3]int{{3, 1, 2}}}},
 		{Data: &DataOp{Local: 2, Bytes: "40"}},
-		{Data: &DataOp{Local: byte(3 + r.Intn(12)), Bytes: "41"}},
+		{Data: &DataOp{Local: []byte{3, 7, 11, 14}[r.Intn(4)], Bytes: "41"}},
 		{Data: &DataOp{Local: 2, Bytes: "42"}},
 	}})
 	// 5. the same local types as 4, but defined: run before 4 it leaves definitions behind
@@ -745,4 +756,88 @@ func stateProbeStreams(r *Rng) []*RecStream {
 		{Data: &DataOp{Local: 14, Bytes: "61"}},
 	}})
 	return out
+}
+
+// jumboOps builds a definition with very many fields (170-255, so that the
+// definition itself is up to 765 bytes) plus up to 255 developer fields, and
+// 1-2 data records for it whose length can exceed several 4096-byte buffer
+// fills. The message is either unknown or hrv (one listed field) with
+// unlisted field numbers, so the model skips everything by size; what is
+// checked is that neighbours are not disturbed, framing, and counters.
+func jumboOps(r *Rng, local byte) []Op {
+	d := &DefOp{Local: local, Arch: []string{"le", "be"}[r.Intn(2)], Global: 78}
+	if r.Bool() {
+		d.Global = unknownGlobal(r)
+	}
+	nf := r.Range(170, 254)
+	total := 0
+	for i := 0; i < nf; i++ {
+		num := 1 + i // 1..254, each once: unlisted for hrv (only field 0 is listed)
+		b := baseOf(anyBases[r.Intn(len(anyBases))])
+		size := b.Size
+		switch r.Intn(8) {
+		case 0:
+			size = b.Size * r.Range(1, 255/b.Size)
+		case 1:
+			size = b.Size * r.Range(1, 4)
+		}
+		if b.String {
+			size = r.Range(1, 40)
+		}
+		d.Fields = append(d.Fields, [3]int{num, size, int(b.Byte)})
+		total += size
+	}
+	if r.Chance(1, 2) {
+		for k := r.Range(1, 255); k > 0; k-- {
+			sz := r.Range(0, 6)
+			d.Dev = append(d.Dev, [3]int{r.Intn(256), sz, r.Intn(8)})
+			total += sz
+		}
+	}
+	ops := []Op{{Def: d}}
+	for k := r.Range(1, 2); k > 0; k-- {
+		ops = append(ops, Op{Data: &DataOp{Local: local, Bytes: hexs(r.Bytes(total))}})
+	}
+	return ops
+}
+
+// withJumbo inserts jumbo operations into a stream at a position after the
+// file_id record, on a local type that no later data record uses before it is
+// redefined.
+func withJumbo(r *Rng, rs *RecStream) {
+	if len(rs.Ops) < 2 {
+		return
+	}
+	pos := r.Range(2, len(rs.Ops))
+	// a local type that is not used by any data op after pos until redefined: simplest
+	// is a type no later op touches at all
+	used := map[byte]bool{}
+	for _, op := range rs.Ops[pos:] {
+		if op.Def != nil {
+			used[op.Def.Local&15] = true
+		}
+		if op.Data != nil {
+			if op.Data.Comp {
+				used[op.Data.Local&3] = true
+			} else {
+				used[op.Data.Local&15] = true
+			}
+		}
+	}
+	local := byte(255)
+	for l := 15; l >= 0; l-- {
+		if !used[byte(l)] {
+			local = byte(l)
+			break
+		}
+	}
+	if local == 255 {
+		pos = len(rs.Ops)
+		local = byte(r.Intn(16))
+	}
+	j := jumboOps(r, local)
+	no := append([]Op{}, rs.Ops[:pos]...)
+	no = append(no, j...)
+	no = append(no, rs.Ops[pos:]...)
+	rs.Ops = no
 }
